@@ -2,109 +2,107 @@ package PKG
 
 // C40: watch mode never loses or duplicates a changed directory.
 //
-// P producers each report one changed file (names with symbolic bytes, so
-// "same directory twice" and "different directories" are both covered),
+// P producers each report one changed file (the directory is a symbolic byte,
+// so "same directory twice" and "different directories" are both covered),
 // C consumers each do one Fetch(false). The engine's scheduler explores the
 // interleavings at every mutex / condition-variable operation (each pick is
 // a symbolic variable); the map-range "pick any" in Fetch is a symbolic
 // choice too. When no goroutine can run any more the harness inspects the
-// final state.
+// final state. Natively (replay) the scenario is repeated many times under
+// the Go scheduler.
 
-var vxFetched []string
-var vxReports []string
-
-func VxC40() {
-	P := vxParam("P")
-	C := vxParam("C")
+func vxC40Once(names []string, C int) {
+	P := len(names)
 	c := NewChanges("/r")
-	names := make([]string, P)
-	for i := range names {
-		b := vxByte()
-		vxAssume(b == 'a' || b == 'b') // two possible directories
-		names[i] = string([]byte{b}) + "/f" + string(rune('0'+i)) + ".xgo"
-	}
-	vxFetched = nil
-	vxReports = nil
-	for i := 0; i < P; i++ {
-		name := names[i]
-		go func() {
-			vxReports = append(vxReports, name[:1])
-			c.FileChanged(name)
-		}()
-	}
+	fetched := make([]string, C)
+	fdone := make([]bool, C)
+	reported := make([]bool, P)
 	for j := 0; j < C; j++ {
+		j := j
 		go func() {
 			d := c.Fetch(false)
-			vxFetched = append(vxFetched, d)
+			fetched[j], fdone[j] = d, true
 		}()
 	}
-	blocked := vxQuiesce()
-
-	// distinct directories reported
-	distinct := 0
-	seenA, seenB := false, false
-	for _, r := range vxReports {
-		if r == "a" && !seenA {
-			seenA = true
-			distinct++
-		}
-		if r == "b" && !seenB {
-			seenB = true
-			distinct++
-		}
+	vxPause() // native replay: let the consumers reach their wait first (one of the explored schedules)
+	for i := 0; i < P; i++ {
+		i := i
+		go func() {
+			c.FileChanged(names[i])
+			reported[i] = true
+		}()
 	}
-	vxAssert(len(vxReports) == P, "a producer did not finish")
-	for _, d := range vxFetched {
-		vxAssert(d == "a" || d == "b", "fetch returned a directory that was never reported")
+	vxQuiesce()
+
+	nfetched := 0
+	for j := 0; j < C; j++ {
+		if !fdone[j] {
+			continue
+		}
+		nfetched++
+		d := fetched[j]
 		nrep, nfet := 0, 0
-		for _, r := range vxReports {
-			if r == d {
+		for i := 0; i < P; i++ {
+			if names[i][:1] == d {
 				nrep++
 			}
 		}
-		for _, f := range vxFetched {
-			if f == d {
+		for k := 0; k < C; k++ {
+			if fdone[k] && fetched[k] == d {
 				nfet++
 			}
 		}
 		vxAssert(nrep > 0, "fetch returned a directory that was never reported")
 		vxAssert(nfet <= nrep, "a directory was returned more often than it was reported")
 	}
-	// every reported directory is either fetched or still pending; nothing is lost
+	for i := 0; i < P; i++ {
+		vxAssert(reported[i], "a change report did not return")
+	}
+	// every reported directory is either fetched or still pending: nothing is lost
 	c.mutex.Lock()
 	pending := len(c.changed)
-	for d := range c.changed {
-		for _, f := range vxFetched {
-			_ = f
-			_ = d
+	for i := 0; i < P; i++ {
+		d := names[i][:1]
+		_, inPending := c.changed[d]
+		wasFetched := false
+		for k := 0; k < C; k++ {
+			if fdone[k] && fetched[k] == d {
+				wasFetched = true
+			}
 		}
+		vxAssert(inPending || wasFetched, "a reported directory was lost")
 	}
 	c.mutex.Unlock()
-	if seenA {
-		_, inPending := c.changed["a"]
-		fetchedA := false
-		for _, f := range vxFetched {
-			if f == "a" {
-				fetchedA = true
-			}
-		}
-		vxAssert(inPending || fetchedA, "a reported directory was lost")
-	}
-	if seenB {
-		_, inPending := c.changed["b"]
-		fetchedB := false
-		for _, f := range vxFetched {
-			if f == "b" {
-				fetchedB = true
-			}
-		}
-		vxAssert(inPending || fetchedB, "a reported directory was lost")
-	}
-	// a waiting fetch wakes up once a change is reported: no consumer may stay blocked while a change is pending
-	if blocked > 0 {
+	// a waiting fetch wakes up once a change is reported: no consumer may stay
+	// blocked while a changed directory is pending
+	if nfetched < C {
 		vxReach("some-consumer-still-waiting")
 		vxAssert(pending == 0, "a fetch is still waiting although a changed directory is pending (lost wake-up)")
 	}
-	vxAssert(len(vxFetched)+blocked == C, "consumer accounting")
-	_ = distinct
+}
+
+func VxC40() {
+	P := vxParam("P")
+	C := vxParam("C")
+	names := make([]string, P)
+	for i := range names {
+		b := vxByte()
+		vxAssume(b == 'a' || b == 'b') // two possible directories
+		names[i] = string([]byte{b}) + "/f" + string(rune('0'+i)) + ".xgo"
+	}
+	iters := 1
+	if !vxSymbolic() {
+		iters = vxParam("ITERS") // native: many runs under the Go scheduler
+		if iters == 0 {
+			iters = 150
+		}
+	}
+	for it := 0; it < iters; it++ {
+		if it%2 == 0 {
+			vxProcs(1) // native: run-until-block scheduling
+		} else {
+			vxProcs(4)
+		}
+		vxC40Once(names, C)
+	}
 }
